@@ -8,6 +8,7 @@ import (
 	"log/slog"
 	"net"
 	"os"
+	"runtime"
 	"strings"
 	"sync"
 	"sync/atomic"
@@ -33,6 +34,7 @@ type echoServer struct {
 	mu       sync.Mutex
 	held     map[string]chan struct{} // id -> release
 	push     map[string]bool          // id -> the server sends a message of its own before the response
+	drop     map[string]bool          // id -> the server closes the connection instead of answering (once)
 	conns    []*memnet.Conn           // client ends handed out by the dialer
 	received map[string]chan struct{} // id -> closed when the request reached the server
 }
@@ -48,13 +50,15 @@ func idOf(m *kmip.RequestMessage) string {
 }
 
 func newEcho() *echoServer {
-	e := &echoServer{held: map[string]chan struct{}{}, received: map[string]chan struct{}{}, push: map[string]bool{}}
+	e := &echoServer{held: map[string]chan struct{}{}, received: map[string]chan struct{}{}, push: map[string]bool{}, drop: map[string]bool{}}
 	e.Server = script.NewServer(func(rx script.Received, conn *memnet.Conn) *kmip.ResponseMessage {
 		id := idOf(rx.Msg)
 		e.mu.Lock()
 		rel := e.held[id]
 		push := e.push[id]
 		delete(e.push, id)
+		drop := e.drop[id]
+		delete(e.drop, id)
 		if ch := e.received[id]; ch != nil {
 			close(ch)
 			delete(e.received, id)
@@ -62,6 +66,10 @@ func newEcho() *echoServer {
 		e.mu.Unlock()
 		if rel != nil {
 			<-rel
+		}
+		if drop {
+			conn.Close()
+			return nil
 		}
 		if push {
 			// a server-to-client request (Notify) on the same connection, ahead of the response
@@ -429,11 +437,22 @@ func clones(c *core.Ctx, r *core.Rand, i int) {
 	srv := newEcho()
 	defer srv.Close()
 	var failDial atomic.Bool
+	slowWrites := i%3 == 0
+	if slowWrites {
+		// connections whose Write takes a moment before it takes the bytes (a full socket buffer), on few processors:
+		// while one connection is in Write the others send
+		defer runtime.GOMAXPROCS(runtime.GOMAXPROCS(1 + i/3%2))
+		c.Count("clone_rounds_with_slow_writes", 1)
+	}
 	cl, err := kmipclient.Dial("mem", kmipclient.WithDialerUnsafe(func(context.Context) (net.Conn, error) {
 		if failDial.Load() {
 			return nil, &net.OpError{Op: "dial", Net: "mem", Err: os.NewSyscallError("connect", syscall.ECONNREFUSED)}
 		}
-		return srv.L.Dial()
+		cc, err := srv.L.Dial()
+		if err == nil && slowWrites {
+			return &slowWriteConn{Conn: cc}, nil
+		}
+		return cc, err
 	}), kmipclient.EnforceVersion(kmip.V1_4))
 	if err != nil {
 		panic("harness: dial: " + err.Error())
@@ -461,12 +480,16 @@ func clones(c *core.Ctx, r *core.Rand, i int) {
 	var hist []string
 	var mu sync.Mutex
 	var wg sync.WaitGroup
+	// all goroutines make their first call at the same moment: a fresh clone is used for the first time by several callers at once
+	start := make(chan struct{})
+	nper := 2 + i%3
 	for u, user := range users {
-		for g := 0; g < 2; g++ {
+		for g := 0; g < nper; g++ {
 			wg.Add(1)
 			rr := core.NewRand(c.Seed, "c10-clones", i, u, g)
 			go func(u, g int, user *kmipclient.Client) {
 				defer wg.Done()
+				<-start
 				for k := 0; k < 6; k++ {
 					if rr.P(1, 2) {
 						// a pause between "request written" and "waiting for the response" (scheduling, GC)
@@ -479,8 +502,65 @@ func clones(c *core.Ctx, r *core.Rand, i int) {
 			}(u, g, user)
 		}
 	}
+	close(start)
 	wg.Wait()
 	c.Distinct(core.Hash64("clones", fmt.Sprint(len(users), i%5)))
+}
+
+type slowWriteConn struct {
+	net.Conn
+	n atomic.Int64
+}
+
+func (s *slowWriteConn) Write(p []byte) (int, error) {
+	if s.n.Add(1)%2 == 0 {
+		time.Sleep(200 * time.Microsecond)
+	} else {
+		runtime.Gosched()
+	}
+	return s.Conn.Write(p)
+}
+
+// drops: the server ends connections in the middle of calls (after it received the request) while several goroutines
+// share the client; the client reconnects and sends again. Whatever each call returns, a response it returns is its own.
+func drops(c *core.Ctx, r *core.Rand, i int) {
+	ctl := hooks.Install()
+	defer ctl.Uninstall()
+	srv := newEcho()
+	defer srv.Close()
+	cl := dial(srv)
+	defer cl.Close()
+	N := 2 + r.Intn(7)
+	var hist []string
+	var mu sync.Mutex
+	var wg sync.WaitGroup
+	for g := 0; g < N; g++ {
+		wg.Add(1)
+		rr := core.NewRand(c.Seed, "c10-drops", i, g)
+		go func(g int) {
+			defer wg.Done()
+			for k := 0; k < 6; k++ {
+				id := fmt.Sprintf("d%d-g%d-%d", i, g, k)
+				if rr.P(1, 3) {
+					srv.mu.Lock()
+					srv.drop[id] = true
+					srv.mu.Unlock()
+					c.Count("connections_dropped_mid_call", 1)
+				}
+				if rr.P(1, 2) {
+					d := time.Duration(rr.Intn(3)) * time.Millisecond
+					ctl.OnMine("client.roundtrip.sent", func() { time.Sleep(d) })
+				}
+				res := call(c, cl, srv, ctl, id, planNone)
+				verdict(c, res, &hist, &mu)
+			}
+		}(g)
+	}
+	wg.Wait()
+	c.Count("drop_rounds", 1)
+	mu.Lock()
+	c.Distinct(core.Hash64("drops", fmt.Sprint(hist)))
+	mu.Unlock()
 }
 
 func Spec() *core.Spec {
@@ -494,8 +574,26 @@ func Spec() *core.Spec {
 			"while the server holds the response, 2 ms deadline}, always followed by further calls; stress: 2..32 goroutines sharing one client, 6 calls each with seeded plans (race detector on). " +
 			"a plan where the server writes a server-to-client request ahead of the response; a plan where the Write that delivered the request reports an error; a client and its clones (some cloned while the dialer fails) used concurrently with pauses between write and wait; the client against the library server with requests above its size limit mixed in; whole responses kept by their callers and re-read after all later calls; distinct = distinct call histories (ids, plans, outcomes in completion order)",
 		Assumptions: []string{"cancellation instants are placed by the verif hooks client.send.loaded and client.roundtrip.sent, which sit where the scheduler may preempt anyway"},
-		Required:    []string{"calls", "calls_returning_response", "calls_returning_error", "cancel.before-send", "cancel.at-send-loaded", "cancel.between-send-and-recv", "cancel.while-server-holds", "hook.client.roundtrip.sent", "stress_rounds", "server_pushes", "calls.server-push-before-response", "write_errors_after_flush", "held_responses", "oversized_requests", "real_server_calls", "clone_rounds", "clones_with_failing_dial"},
-		Shards:      func(string) int { return 8 },
+		Required:    []string{"calls", "calls_returning_response", "calls_returning_error", "cancel.before-send", "cancel.at-send-loaded", "cancel.between-send-and-recv", "cancel.while-server-holds", "hook.client.roundtrip.sent", "stress_rounds", "server_pushes", "calls.server-push-before-response", "write_errors_after_flush", "held_responses", "oversized_requests", "real_server_calls", "clone_rounds", "clones_with_failing_dial", "clone_rounds_with_slow_writes", "connections_dropped_mid_call", "drop_rounds"},
+		// the pairing of requests and responses of concurrent calls rests on the client serialising its calls: two calls of
+		// one client racing with each other inside the round trip are not serialised
+		RaceVerdict: func(r core.RaceReport) (string, bool) {
+			n := 0
+			for _, st := range r.Frames {
+				for _, f := range st {
+					if strings.Contains(f, "kmipclient.(*Client).doRountrip") {
+						n++
+						break
+					}
+				}
+			}
+			if n == 2 {
+				a, b := core.RaceLibFrames(r)
+				return "C10:data-race-between-calls:" + a + ":" + b, true
+			}
+			return "", false
+		},
+		Shards: func(string) int { return 8 },
 		Families: []core.Family{
 			{Name: "directed", N: func(tier string) int {
 				if tier == core.Thorough {
@@ -509,6 +607,12 @@ func Spec() *core.Spec {
 				}
 				return 40
 			}, Run: clones, Timeout: 60 * time.Second},
+			{Name: "drops", N: func(tier string) int {
+				if tier == core.Thorough {
+					return 4000
+				}
+				return 40
+			}, Run: drops, Timeout: 60 * time.Second},
 			{Name: "real-server", N: func(tier string) int {
 				if tier == core.Thorough {
 					return 1500
